@@ -151,6 +151,22 @@ def build_api(placements, presets):
     return cal
 
 
+def window_args(window):
+    """The optional bounds are documented as date or datetime 'earlier/later than anything that happens in the calendar'."""
+    if window and isinstance(window[0], str):
+        kind = window[0]
+        a, b = datetime(2024, 1, 1), datetime(2025, 1, 1, 12, 30)
+        if kind == "naive":
+            return a, b
+        if kind == "aware-utc":
+            from datetime import timezone as _tz
+            return a.replace(tzinfo=_tz.utc), b.replace(tzinfo=_tz.utc)
+        if kind == "aware-zoned":
+            return tzp.localize(a, B), tzp.localize(b, B)
+        raise AssertionError(kind)
+    return window
+
+
 def tz_ids_present(cal):
     out = []
     for c in cal.walk("VTIMEZONE"):
@@ -195,7 +211,7 @@ def run_case(case):
     known_missing = {i for i in missing if i != C}
     outcome = "ok"
     for k in range(3):
-        r = attempt(lambda: cal.add_missing_timezones(*window) if window else cal.add_missing_timezones())
+        r = attempt(lambda: cal.add_missing_timezones(*window_args(window)) if window else cal.add_missing_timezones())
         trans += 1
         if r[0] != "ok":
             fails.append(fail("add_missing_timezones-raises", case, "returns", r))
@@ -237,7 +253,7 @@ def run(ctx):
     ctx.rule = (f"E-enum: every subset of <={maxp} of 12 zoned-value placements (depth 1-3, incl. two RDATE lines with "
                 "different zones, FREEBUSY periods, a zoned TRIGGER in a nested alarm, an X- property, an explicit TZID=UTC) x every subset of 6 "
                 "pre-existing VTIMEZONEs (quick: triples only with 0, 1 or all 6 of them) x {parsed text, API-built} under zoneinfo; under pytz all subsets of <=2 placements x "
-                "all VTIMEZONE subsets (parsed) ; then get_used, get_missing, 3 x add_missing_timezones (window 2024; default "
+                "all VTIMEZONE subsets (parsed) ; then get_used, get_missing, 3 x add_missing_timezones (window 2024 given as dates, for a reduced set also as naive / UTC / zoned datetimes under both providers; default "
                 "window for single placements). non-trivial = some zone used and (a VTIMEZONE present or something missing).")
     ctx.bounds = {"placements": len(PLACEMENTS), "max_placements": maxp, "vtimezone_presets": list(PRESETS)}
     ctx.assumptions += ["the used set is the set of TZID *parameters*; a list value built from several zones carries one TZID (C02)",
@@ -260,5 +276,11 @@ def run(ctx):
         for placements in subsets(pl, 1):
             for presets in ((), ("tzA",), ("tzT", "tzNoId")):
                 yield ("c", "zoneinfo", "parse", placements, presets, None)
+        # the window bounds given as naive / aware datetimes instead of dates
+        for provider in env.PROVIDERS:
+            for placements in list(subsets(pl, 1)) + [("P1", "P2"), ("P5", "P9")]:
+                for presets in ((), ("tzA",)):
+                    for kind in ("naive", "aware-utc", "aware-zoned"):
+                        yield ("c", provider, "parse", placements, presets, (kind,))
 
     ctx.explore("calendars x histories", gen, run_case)
